@@ -5,6 +5,7 @@ E2: explains_flow + weight type on every solution of kFlowDecomp / MinFlowDecomp
 from fractions import Fraction as F
 import networkx as nx
 import zoo, common, gen, gen2, lpdump, e1, props, vcheck
+import gencheck_enc
 
 LEVEL = "proof"
 EXPLANATION = ("Props/C02.v: the rows generated for kFlowDecomp (PathEnc.encode_kfd) force, for every non-ignored edge, "
@@ -285,3 +286,4 @@ def run(ctx):
                 if bad:
                     ctx.report(f"{name} (node-weighted, self-loop): returned decomposition does not explain the node weights: {bad}", rep)
     VB.flush()
+    gencheck_enc.run_generated_kfd(ctx)      # generated-model tie of _encode_paths / _encode_flow_decomposition (coq/gen_proofs)
